@@ -67,7 +67,15 @@ CApplied(i) ==
     /\ applied' = applied \cup {i}
     /\ UNCHANGED <<initCap, req, open, dropped, starved>>
 
-CNext(caps) == CAccept \/ CClose \/ (\E n \in caps : CSetMax(n)) \/ (\E i \in 1..Len(req) : CApplied(i))
+(* the server is restarted (a reload changed a restart-relevant option): every connection of the *)
+(* old server has ended; from here on the cap is the maxConnections of the new spec, unchanged     *)
+(* until the next run-time change, whatever was requested at run time before the restart          *)
+CRestart(n) ==
+    /\ open = 0
+    /\ initCap' = n /\ req' = <<>> /\ applied' = {}
+    /\ UNCHANGED <<open, dropped, starved>>
+
+CNext(caps) == CAccept \/ CClose \/ (\E n \in caps : CSetMax(n) \/ CRestart(n)) \/ (\E i \in 1..Len(req) : CApplied(i))
 
 CSpec(caps) == CInit(caps) /\ [][CNext(caps)]_cvars
 
